@@ -54,6 +54,11 @@ Step ==
             IN /\ viol' = IF bad THEN V("caller_result_differs_from_the_invocation_it_joined") ELSE viol
                /\ retd' = retd \cup {i}
                /\ UNCHANGED <<tid, running, invOf, outc, valOf, fin, nseg, ncalls>>
+       [] Ev.ev = "woken_locked" ->
+            \* a follower left wg.Wait while the harness held the group lock, i.e. before the call left the table:
+            \* its result counts as delivered from here on (a later joiner is reported by the "joined" rule)
+            /\ retd' = retd \cup {Get(invOf, Ev.c, 0)}
+            /\ UNCHANGED <<tid, running, invOf, outc, valOf, fin, viol, nseg, ncalls>>
        [] Ev.ev = "hang" ->
             /\ viol' = V("caller_blocked") /\ UNCHANGED <<tid, running, invOf, outc, valOf, fin, retd, nseg, ncalls>>
        [] Ev.ev = "noreturn" ->
